@@ -237,3 +237,47 @@ theorem marsh_key_in_dels (c : TC → Guard → Bool) (d : Desc) (w : WF c d) (m
   · exact this
 
 end KinModel.Marshal
+
+namespace KinModel.Marshal
+
+/-! ### one level of the composition over nesting -/
+
+theorem mapM_ok_of_forall {α β : Type} (f : α → Res β) (g : α → β) :
+    ∀ (l : List α), (∀ x ∈ l, f x = .ok (g x)) → l.mapM f = .ok (l.map g)
+  | [], _ => rfl
+  | x :: l, h => by
+    have hx := h x (by simp)
+    have hl := mapM_ok_of_forall f g l (fun y hy => h y (List.mem_cons_of_mem _ hy))
+    simp only [List.mapM_cons, hx, hl, List.map_cons]
+    rfl
+
+theorem filter_map_eq_filterMap_emit (d : Desc) (r : Rec) : ∀ (ms : List MField),
+    (ms.filter (fun m => guard (tcOfGo d m.goName) m.guard (r.fld m.goName))).map
+        (fun m => (m.key, r.fld m.goName)) = ms.filterMap (emit (fun _ v => v) d r)
+  | [] => rfl
+  | m :: ms => by
+    simp only [List.filter_cons, List.filterMap_cons, emit]
+    cases hg : guard (tcOfGo d m.goName) m.guard (r.fld m.goName) <;>
+      simp [filter_map_eq_filterMap_emit d r ms]
+
+/-- If the marshaller of every written child returns the child unchanged, the deep marshalling step of a
+    struct kind is the flat one. -/
+theorem marshalDeep_of_children_fixed (f : Shape → JV → Res JV) (d : Desc) (r : Rec)
+    (h : ∀ m ∈ d.marsh, guard (tcOfGo d m.goName) m.guard (r.fld m.goName) = true →
+          f (shapeOfGo d m.goName) (r.fld m.goName) = .ok (r.fld m.goName)) :
+    marshalDeep f d r = .ok (marshal d r) := by
+  unfold marshalDeep marshal marshalWith
+  split
+  · rfl
+  · have := mapM_ok_of_forall
+      (fun (m : MField) => (f (shapeOfGo d m.goName) (r.fld m.goName)).map (fun v' => (m.key, v')))
+      (fun m => (m.key, r.fld m.goName))
+      (d.marsh.filter (fun m => guard (tcOfGo d m.goName) m.guard (r.fld m.goName)))
+      (by
+        intro m hm
+        obtain ⟨hm1, hm2⟩ := List.mem_filter.mp hm
+        rw [h m hm1 hm2]; rfl)
+    rw [this, filter_map_eq_filterMap_emit]
+    rfl
+
+end KinModel.Marshal
